@@ -407,7 +407,7 @@ func TestC02(t *testing.T) {
 		ch := choose.Rapid{T: rt}
 		cfg := walkCfg{node: genNodeCfg(ch), steps: rapid.IntRange(10, 60).Draw(rt, "steps")}
 		if _, err := c02Case(ch, cfg, rec); err != nil {
-			rt.Fatalf("%v", err)
+			fatal(rt, "%v", err)
 		}
 	})
 }
